@@ -213,13 +213,22 @@ SENSITIVE = ["10. T\n    ===\n", "- - T\n    ===\n", "- x\n  - T\n    ---\n", ">
              "1. ~~~\n   c\n   ~~~\n", "> <div>\n> x\n", "- <div>\n  x\n", "- * * *\n", "- a\n  ***\n", "-     c\n", "10.     c\n", "- x\n\n      c\n", "- # h\n", "1. # h\n   ## i\n",
              "> a\nb\n", "- a\nb\n", "7. x\n8. y\n", "-   wide\n    cont\n", "> > q\n> r\ns\n", "- [r]: /u\n  't'\n", "10. [r]:\n    /u\n", "> 1. a\n>\n>    b\n", "- - - x\n      ===\n",
              "1. a\n\n   T\n   ---\n", "- a\n\n  |x|y|\n  |-|-|\n  |z|\n", "> - a\n>   - b\n>     ===\n", "10. > T\n    > ===\n", "-\tT\n\t===\n".replace("\t", "   "), "+ a\n+\n+ c\n"]
+# a construct and its near miss (a line that begins with the same characters but is something else): whatever is remembered
+# about the first one met - per tag name, per marker, per prefix - must not decide how the other one is read, in either order
+NEAR = [("<link rel=x>\n", "<link:chapter-2> text\n"), ("<div>\nx\n</div>\n", "<div:x> y\n"), ("<title>t</title>\n", "<title:draft> z\n"), ("<section>\n", "<section:4> w\n"),
+        ("<pre>\np\n</pre>\n", "<pre:1> q\n"), ("<script>\ns\n</script>\n", "<script:2> s\n"), ("</p>\n", "</p:x> v\n"), ("<h1>H</h1>\n", "<h1:a> b\n"),
+        ("# h\n", "#hashtag\n"), ("- x\n", "-x\n"), ("1. x\n", "1.x\n"), ("***\n", "***a\n"), ("```\nc\n```\n", "``` `x`\n"), ("[r]: /u\n", "[r]:x y z\n"),
+        ("t\n===\n", "t\n=== x\n"), ("|a|b|\n|-|-|\n", "|a|b|\n|-|x|\n"), ("<!-- c -->\n", "<!- c ->\n"), ("<?php x ?>\n", "<? x\n"), ("<a@b.c>\n", "<a href=x>\n"),
+        ("    code\n", "   text\n"), ("~~~\nf\n~~~\n", "~~ s ~~\n"), ("> q\n", ">q\n")]
+SETTERS += [x for pair in NEAR for x in pair]
+SENSITIVE += [x for pair in NEAR for x in pair]
 BATTERY_CONFS = [{"preset": "commonmark", "enable": ["table", "strikethrough"]}, {"preset": "js-default"}, {"preset": "commonmark"}, {"preset": "gfm-like", "options": {"linkify": False}}]
 
 
 def run(ctx):
     rng = ctx.rng
     # every (trace-leaving document | delicate construct) followed by every delicate construct, on four configurations; chains of setters
-    pairs = [(a, b) for a in SETTERS + SENSITIVE for b in SENSITIVE]
+    pairs = [(a, b) for a in SETTERS + SENSITIVE for b in SENSITIVE if b[0] not in " \n"]   # B starts in column 0 (side condition)
     for _ in range(ctx.scale(1500, 60000)):
         pairs.append(("\n".join(rng.sample(SETTERS, rng.randint(2, 4))), rng.choice(SENSITIVE)))
     for i, (a, b) in enumerate(pairs):
